@@ -12,7 +12,7 @@ CLAIMED = {
         "steps 1, purity/operands-outside for hoisting), the trip count is a ceiling, the induction values are "
         "k/ub_inner and k%ub_inner with the same constant, the dynamic subview size operand is chosen by counting "
         "dynamic entries. Decides these structural necessary conditions for every execution of the pass code, not the "
-        "operation sequence itself; the imperfect-nest merge is a listed known finding (F-11). Nested helpers of MoveMemrefDims that take an op of the matched type never read the enclosing pattern's matched op.",
+        "operation sequence itself; the imperfect-nest merge is a listed known finding (F-11). Nested helpers of MoveMemrefDims that take an op of the matched type never read the enclosing pattern's matched op. Round-3 clauses: replace_uses_with_if spares only ops built here from the replaced value (by identity); dynamic subview sizes are accepted only from constant / affine.min / derivable dim producers (C17.dim-sources).",
         "Python semantics as modelled by the syntax-directed walker (sa/flow.py); xdsl API names (rewriter.*, "
         "replace_uses_with_if, InsertPoint) taken by name; helper predicates summarised one to two levels deep.",
         "custom AST dataflow: must-facts / guard dominance + def-use cones (static analysis)",
@@ -29,7 +29,7 @@ CLAIMED["C01"] = (
     "an in_state; loop hoisting excludes every field defined in the loop or written with two values anywhere in the "
     "loop body; sinking into scf.if requires that no launch of the if's state lies between; accfg ops have no purity "
     "traits; plus the C07 soundness rules of the consumed state inference. Holds for every execution of the pass code; "
-    "does not decide run-time register contents or confluence of the greedy driver.",
+    "does not decide run-time register contents or confluence of the greedy driver. Round-3 clause (shared with C07): loop-head state from an exhaustive body scan.",
     WALKER_NOTE,
     "custom AST dataflow: must-facts / guard dominance, def-use cones, trait tables (static analysis)",
     "DESIGN.md section 5, C01",
@@ -41,7 +41,7 @@ CLAIMED["C07"] = (
     "flags func/llvm calls, honours the effects attribute with the right polarity and recurses over all nested ops; "
     "every branch of the weaving chain that an effecting op can take shrinks the tracked state on every path; setups are "
     "re-linked to state[their accelerator]. A transfer function that does not read what its soundness depends on cannot "
-    "be sound: these are necessary conditions decided for all inputs, not the run-time state itself. Regions woven on their own drop the accelerators configured inside from the outer state (F-30, fixed); a setup is re-linked whenever its in_state differs from the recorded state, an unknown state included (F-31, fixed).",
+    "be sound: these are necessary conditions decided for all inputs, not the run-time state itself. Regions woven on their own drop the accelerators configured inside from the outer state (F-30, fixed); a setup is re-linked whenever its in_state differs from the recorded state, an unknown state included (F-31, fixed). Round-3 clauses: the loop-head state depends on an exhaustive scan of the body's setups (a must-state at the yield is not accepted); every own-state recursion into an op's regions drops the accelerators set up inside (may-scan); the state is cleared on entry to every further block / sibling region (C07.weave-regions, F-37 fixed).",
     WALKER_NOTE,
     "custom AST dataflow: dependency cones (information-flow necessity), path/branch coverage of state-shrinking constructs (static analysis)",
     "DESIGN.md section 5, C07",
@@ -53,7 +53,7 @@ CLAIMED["C06"] = (
     "loop's own block argument as in_state and no launch user of the loop-carried state (nested ones included), "
     "substitutes (lb,*iter_args) / (iv+step,*yield operands) for (iv,*carried), redirects init operand 3+k and yield "
     "operand k, and erases the original only after both copies are in place on every path. Necessary conditions for all "
-    "executions of the pass code; does not decide register contents at run time. A producer with regions joins the moved closure only if the values used inside its regions are followed (F-29, fixed); a generalisation of the two-users contract is accepted only with a positional choice of the launch.",
+    "executions of the pass code; does not decide register contents at run time. A producer with regions joins the moved closure only if the values used inside its regions are followed (F-29, fixed); a generalisation of the two-users contract is accepted only with a positional choice of the launch. Round-3: the closure list may be filled by append or insert; the ordered-by-position clause is unchanged.",
     WALKER_NOTE,
     "custom AST dataflow: must-facts / guard dominance per path class, must-pass-through events, template matching of substitution tuples (static analysis)",
     "DESIGN.md section 5, C06",
@@ -65,7 +65,7 @@ CLAIMED["C03"] = (
     "at positions dim, dim+1 with the suffix shifted; add_dim inserts bound 1 in front; unit-dimension dropping uses one "
     "predicate for bounds and columns whose complement is bound == 1 (abstractly evaluated); the Schedule wrappers pass "
     "arguments unchanged to every pattern; the pass derives the schedule from this op's bounds and all its patterns on "
-    "every path and emits schedule[0].bounds with one map per pattern. Does not decide AffineTransform.compose arithmetic. An un-rotated return of rotate is accepted only where the rotation is the identity.",
+    "every path and emits schedule[0].bounds with one map per pattern. Does not decide AffineTransform.compose arithmetic. An un-rotated return of rotate is accepted only where the rotation is the identity. Round-3 clauses: AccessPattern.canonicalize only selects columns (no column rewritten, bias unchanged); get_static_pattern_bounds returns bounds in dimension order (C03.initial-bounds).",
     WALKER_NOTE,
     "custom AST analysis: symbolic index-segment comparison, must-facts, per-path-class definitions (static analysis)",
     "DESIGN.md section 5, C03",
@@ -77,7 +77,7 @@ CLAIMED["C16"] = (
     "schedule is yielded only after all dims were handled; Template.matches rejects arity mismatches and needs every pair; "
     "TemplatePattern.matches never drops result rows of the schedule operand; the memory-granularity test pairs its two "
     "conditions per operand dimension; the pass and scheduler() request exactly these constraints. Does not decide the "
-    "SVD subspace comparison or the numeric predicates' arithmetic. Spatial unrolling requires coefficient 1 on a spatial column.",
+    "SVD subspace comparison or the numeric predicates' arithmetic. Spatial unrolling requires coefficient 1 on a spatial column. Round-3 clause: the temporal-granularity test covers all temporal columns.",
     WALKER_NOTE,
     "custom AST dataflow: must-facts per path class (path enumeration over alternatives), structural pairing test (static analysis)",
     "DESIGN.md section 5, C16",
@@ -90,7 +90,7 @@ CLAIMED["C10"] = (
     "step*bound; canonicalize merges only under inner.step*inner.bound == outer.step, drops only unit bounds and keeps "
     "the innermost level; the common contiguous block only takes strides equal in both layouts that continue the running "
     "extent; bound/step op builders cover every (dim, depth). Decides these clauses, not numeric agreement of the views "
-    "on all layouts (arithmetic). Subview lowering pairs the k-th dynamic offset with the dimension of the k-th DYNAMIC entry and forms (offset div inner tile size) * outermost step * element bytes.",
+    "on all layouts (arithmetic). Subview lowering pairs the k-th dynamic offset with the dimension of the k-th DYNAMIC entry and forms (offset div inner tile size) * outermost step * element bytes. Round-3 clauses: largest_common_contiguous_block returns only the built block; is_dense answers True only without self-overlap or against the number of index tuples (C10.dense-injective).",
     WALKER_NOTE,
     "custom AST analysis: sibling (printer/parser) table agreement, slot templates on expanded expressions, must-facts (static analysis)",
     "DESIGN.md section 5, C10",
@@ -116,7 +116,7 @@ CLAIMED["C13"] = (
     "erases a ClusterSyncOp and its only lowering is the hardware-barrier call; in all 16 flag valuations of the pipeline "
     "the last InsertSyncBarrier is followed by DispatchRegions with no op-moving pass in between and SNAXToFunc later. "
     "NOT decided: that every execution path between two dependent ops of a given program contains a barrier (needs "
-    "per-program exploration); the nested-loop back-edge gap is a listed known finding (F-23). A dependency pair may be skipped before the dispatch tests only under a condition that establishes, on every true path of the helper, that neither op writes the shared value.",
+    "per-program exploration); the nested-loop back-edge gap is a listed known finding (F-23). A dependency pair may be skipped before the dispatch tests only under a condition that establishes, on every true path of the helper, that neither op writes the shared value. Round-3 rule: a dealloc user of any walked op's value becomes pending whatever core the op is bound to (C13.dealloc); C13.symmetric is decided from dominating facts when the two directions are not two syntactic blocks.",
     WALKER_NOTE + " Pass classes are identified by name; the list of op-moving passes is frozen in rules/c13.py.",
     "isinstance type-set analysis, sibling alpha-equivalence, who-may-erase scan, abstract execution of the pipeline builder over all flag valuations (static analysis)",
     "DESIGN.md section 5, C13",
@@ -166,7 +166,7 @@ CLAIMED["C12"] = (
     "operand; only unset function memory spaces become L3 and returns are cast to the function type's space; compile-time "
     "re-layout only for None -> dense static TSL, bailing on None, never with terminator users, non-cast users of an "
     "alloc, other references to the global or several uses of the get_global under a subview. Does not decide the byte "
-    "permutation of transform_constant nor write/read/write orders of several users (observations O-8/O-9). As built after round 2: a re-used L1 cast must be visible at the op (F-33, fixed); the copy-in goes in front of the FIRST use once some use reads the buffer (F-34, fixed; this supersedes 'before the first use that has the value among its inputs' above); a chain ending in its root's type is replaced by a value of that type (F-35, fixed); dynamic sizes of the realised buffer are memref.dim(source, i) for the DYNAMIC dimensions in order.",
+    "permutation of transform_constant nor write/read/write orders of several users (observations O-8/O-9). As built after round 2: a re-used L1 cast must be visible at the op (F-33, fixed); the copy-in goes in front of the FIRST use once some use reads the buffer (F-34, fixed; this supersedes 'before the first use that has the value among its inputs' above); a chain ending in its root's type is replaced by a value of that type (F-35, fixed); dynamic sizes of the realised buffer are memref.dim(source, i) for the DYNAMIC dimensions in order. Round-3 rule: transform_constant scatters (reshape to bounds + transpose into descending step order, or store through the address enumeration), never gathers through it (C12.const-permutation).",
     WALKER_NOTE,
     "custom AST dataflow: dependency templates, must-facts per path class, sibling loop agreement (static analysis)",
     "DESIGN.md section 5, C12",
@@ -193,7 +193,7 @@ CLAIMED["C19"] = (
     "path conditions on the input, evaluated on a grid of model expressions); pairing and or-reduction shape of "
     "pack_bitlist. The identity test is bounded, not a proof; AffineTransform algebra and AccessPattern equivalence are "
     "not decided here (C03 covers the schedule transformations). The unprinted streamer system type is a listed known "
-    "finding (F-15). AffineTransform.from_affine_map refuses floordiv/ceildiv/mod anywhere in a result (complete traversal).",
+    "finding (F-15). AffineTransform.from_affine_map refuses floordiv/ceildiv/mod anywhere in a result (complete traversal). Round-3: the rewrite-identity grid contains split/recombine shapes ((a floordiv c) * k + b mod c') with structural equality of model expressions.",
     WALKER_NOTE + " Rewrite rules are extracted per return site with SSA-like tracking of the re-assigned parameter; helper predicates in path conditions are not assumed.",
     "printer/parser sibling agreement, registry tables, must-facts, bounded abstract evaluation of extracted rewrite rules (static analysis)",
     "DESIGN.md section 5, C19",
@@ -205,7 +205,7 @@ CLAIMED["C20"] = (
     "returned and mux placeholders are replaced in place; every collected mux is handed to search_mapping, which tries "
     "both positions of every mux and returns only complete mappings accepted by valid_mapping; the accelerator sizes its "
     "switch fields by the former and fills them by the latter. NOT decided: that the decoded switch values make the "
-    "merged PE compute the kernel, nor stability under merge histories (behavioural). Merging: a routing conflict at operand i gets its own new mux with a fresh switch (default on lhs), inserted before the consumer; new chooses get fresh switches; routing of existing chooses and of the terminator is uncollided.",
+    "merged PE compute the kernel, nor stability under merge histories (behavioural). Merging: a routing conflict at operand i gets its own new mux with a fresh switch (default on lhs), inserted before the consumer; new chooses get fresh switches; routing of existing chooses and of the terminator is uncollided. Round-3 clause: uncollide_inputs is called whenever the abstract counterpart exists (no further condition).",
     WALKER_NOTE,
     "abstract path enumeration over a finite switch domain, sibling count agreement, dependency templates (static analysis)",
     "DESIGN.md section 5, C20",
@@ -221,7 +221,7 @@ CLAIMED["C08"] = (
     "extension CSR tables have csr_length entries; values named like fields sit at their field's position; per-tensor "
     "lists are replicated only under their own length test. Segments whose length depends on the operation (gemmx "
     "per-channel rescale lists) are reported as undecided, not as violations. Does not decide numeric contents. F-5 and F-7 "
-    "are listed known findings. Four-per-register packing loops of the gemmx accelerator (setup path and per-channel launch path) place channel 4r+j at the same bit offset (abstract bit placement, sibling agreement).",
+    "are listed known findings. Four-per-register packing loops of the gemmx accelerator (setup path and per-channel launch path) place channel 4r+j at the same bit offset (abstract bit placement, sibling agreement). Round-3 rules: per-streamer locals are assigned in the iteration that reads them (C08.per-streamer-fresh, F-36 fixed); the bypass bit of an extension is its position among the extensions (C08.bypass-bit).",
     "Python list-building semantics as modelled by sa/shape.py (append/extend/+/splat/comprehensions/loops/if-merging); option tests and length aliases normalised; the xDMA system type is tied to the xDMA accelerator class (frozen).",
     "sequence-shape abstract interpretation with symbolic domains and label provenance; must-facts for guards (static analysis)",
     "DESIGN.md section 5, C08",
@@ -259,7 +259,7 @@ CLAIMED["C05"] = (
     "pointer arithmetic before its uses; the stride that seeds dynamic steps in get_step_ops is selected from steps and bounds (F-25, "
     "fixed); the common-contiguous-block search ends at a dynamic stride (violated on the tree: listed known finding F-28, specified by an "
     "upstream sample). Does not decide the arithmetic of largest_common_contiguous_block, of dynamic steps beyond the seed choice, nor byte-level "
-    "footprints. Every layout reconstructed by from_strides takes strides and offset from the same memref type.",
+    "footprints. Every layout reconstructed by from_strides takes strides and offset from the same memref type. Round-3 clauses: a run-time metadata stride is stored only for the innermost tile level of its dimension (C05.metadata-stride); largest_common_contiguous_block returns only the block built stride by stride (C05.lccb-built).",
     "Identifier tokens src/source and dst/dest/destination carry the role (the file's own convention, 38 bindings checked); the "
     "abstract evaluation is bounded to at most 5 remaining strides; models of ForOp/Block/Region/CallOp/MuliOp/AddiOp are the "
     "checker's (structure only).",
@@ -278,7 +278,7 @@ CLAIMED["C02"] = (
     "results, xDMA add extension, identity defaults): position h of the pattern list and of inputs+outputs carries the pattern and the "
     "pointer of the operand scheduled for hardware streamer h, and the new op uses exactly what the hook returns; (tsl-affine) by abstract "
     "evaluation with symbolic bounds and steps over the repo's own TSL classes, for every tiling profile of 1-2 dimensions x 1-4 levels: "
-    "the layout map equals offset + sum step*((d mod prod(bounds[depth:])) div prod(bounds[depth+1:])). Also: the pointer is moved, at the place where it is moved, by the origin response of the composed map (not of the layout alone), and StridePattern.canonicalize (applied to every emitted pattern) folds only contiguous dimensions (rule shared with C19).",
+    "the layout map equals offset + sum step*((d mod prod(bounds[depth:])) div prod(bounds[depth+1:])). Also: the pointer is moved, at the place where it is moved, by the origin response of the composed map (not of the layout alone), and StridePattern.canonicalize (applied to every emitted pattern) folds only contiguous dimensions (rule shared with C19). Round-3 clause: get_streamers returns this accelerator's own streamers (a distinct module default is modelled).",
     "Abstract evaluation is bounded (5 hardware streamers from the module's default configuration, <= 4 tile levels, <= 2 dimensions); "
     "models of StridePattern / StreamType / AffineDimExpr are the checker's own (structure only); on a streamer shared by several operands "
     "the first scheduled operand owns pattern and pointer (the add extension's fixed 512-byte second-input stride is taken as given).",
